@@ -252,6 +252,8 @@ def run(model, tier="quick"):
     effects_check(res, model, "SqueethMarket._get_reduce_debt_result_in_vault", REF_REDUCE_IN_VAULT,
                   "redeeming the LP clears the vault's LP id together with absorbing its amounts", WALLET, opaque=OPQ)
     res.units["deribit_memo_stores_outside_valuation"] = deribit_memo_rule(model, res)
+    from .base_refs import base_helpers
+    res.units["keyed_containers"] = base_helpers(res, model, ("dicts",))   # markets / assets are iterated through these
     # a stale memo makes the reported value differ from the bar's valuation: Aave's caches are covered by the typestate rule
     from ..rules.cache import run_cache
     n_writers, caches = run_cache(model, res, "AaveV3Market", "C01")
